@@ -22,6 +22,6 @@ meta={"property":id,"name":name,"breaks":am.get("summary",""),"needs_to_manifest
  "base_commit":subprocess.check_output(["git","-C","/repo","rev-parse","--short","HEAD"]).decode().strip(),
  "confirmed_by_me":{"command":f"tools/confirm_seed.sh {id} {demo}","output":conf.splitlines()},
  "checks_run":{"command":f"tools/try_mutant.sh seeded/{id}-{name}/patch.diff {checks}","result":res.splitlines()},
- "demo":f"{demo}.rs (copy to fastrace/tests/ and run: cd fastrace && cargo test --test {demo} --offline)"}
+ "demo":f"{demo}.rs (copy to ${DEMO_DIR:-fastrace}/tests/ and run: cd ${DEMO_DIR:-fastrace} && cargo test --test {demo} --offline ${DEMO_ARGS:-})"}
 json.dump(meta,open(dst+"/meta.json","w"),indent=1)
 PY
